@@ -212,6 +212,20 @@ def alias_conflict(accesses, env0):
     return None
 
 
+_NODES = ("ExprInt", "ExprId", "ExprLoc", "ExprMem", "ExprSlice", "ExprCond", "ExprOp", "ExprCompose")
+
+
+def wellformed(pairs_iter):
+    """every node of every source / destination is one of the eight expression classes the engine documents
+    (e.g. the MeP lifter emits IRDst = ExprAssign(PC, R11) for JMP Rm: not an IR this property speaks about)"""
+    for d, s in pairs_iter:
+        for e in (d, s):
+            for x in simplab.subexprs(e):
+                if x.__class__.__name__ not in _NODES:
+                    return False
+    return True
+
+
 def has_unaligned_mem(pairs_iter):
     for d, s in pairs_iter:
         for e in (d, s):
@@ -349,6 +363,8 @@ def run_case(case, attribute=True):
 def judge(case, info, symbolic, cfg, head, st0, regs, tag, attribute, addrsize, init=()):
     from vlib import irinterp
     pairs = [p for blk in cfg.blocks.values() for ab in blk for p in irinterp._pairs(ab)]
+    if not wellformed(pairs):
+        raise Drop("malformed IR: node that is not an expression operand (C14's matter)")
     if has_unaligned_mem(pairs):
         raise Drop("memory access not byte aligned (engine limit)")
     for d, _ in pairs:
